@@ -1,6 +1,7 @@
 package main
 
 import (
+	"go/token"
 	"fmt"
 	"go/types"
 	"os"
@@ -37,6 +38,7 @@ type Engine struct {
 	tagSuffix   string
 	fmtIDs      map[string]int
 	errGlobalTag map[string]string // dynamic type tag of such a global when init shows it
+	funcGlobals map[string]bool // G$pkg.Name of function-typed globals set once (by init) to a function value: never nil
 	errGlobals  map[string]bool // G$pkg.Name of interface-typed globals initialised once to a fresh non-nil value
 }
 
@@ -489,6 +491,76 @@ func (e *Engine) scanErrGlobals() {
 			}
 		}
 	}
+	// function-typed package variables that init sets to a function value (a literal, a closure, or the result of
+	// calling a module function all of whose returns are such values) and nobody else assigns: never nil
+	e.funcGlobals = map[string]bool{}
+	fcand := map[*ssa.Global]bool{}
+	var surelyFunc func(v ssa.Value, depth int) bool
+	surelyFunc = func(v ssa.Value, depth int) bool {
+		switch x := v.(type) {
+		case *ssa.Function, *ssa.MakeClosure:
+			return true
+		case *ssa.UnOp:
+			// load of a local (the result cell in NaiveForm): every store to it is such a value
+			if a, ok := x.X.(*ssa.Alloc); ok && x.Op == token.MUL && depth <= 4 {
+				n := 0
+				for _, ref := range *a.Referrers() {
+					if st, isStore := ref.(*ssa.Store); isStore && st.Addr == ssa.Value(a) {
+						n++
+						if !surelyFunc(st.Val, depth+1) {
+							return false
+						}
+					}
+				}
+				return n > 0
+			}
+			return false
+		case *ssa.Call:
+			f := x.Common().StaticCallee()
+			if f == nil {
+				if mc, ok := x.Common().Value.(*ssa.MakeClosure); ok {
+					f, _ = mc.Fn.(*ssa.Function)
+				}
+			}
+			if f == nil || f.Blocks == nil || depth > 2 {
+				return false
+			}
+			n := 0
+			for _, b := range f.Blocks {
+				for _, in := range b.Instrs {
+					if r, ok := in.(*ssa.Return); ok {
+						n++
+						if len(r.Results) != 1 || !surelyFunc(r.Results[0], depth+1) {
+							return false
+						}
+					}
+				}
+			}
+			return n > 0
+		}
+		return false
+	}
+	for _, sp := range e.spkgs {
+		init := sp.Func("init")
+		if init == nil {
+			continue
+		}
+		for _, b := range init.Blocks {
+			for _, in := range b.Instrs {
+				st, ok := in.(*ssa.Store)
+				if !ok {
+					continue
+				}
+				g, ok := st.Addr.(*ssa.Global)
+				if !ok {
+					continue
+				}
+				if _, isFn := g.Type().Underlying().(*types.Pointer).Elem().Underlying().(*types.Signature); isFn && surelyFunc(st.Val, 0) {
+					fcand[g] = true
+				}
+			}
+		}
+	}
 	// disqualify globals stored to outside init
 	for _, fn := range e.funcs {
 		if fn.Synthetic != "" && fn.Name() == "init" {
@@ -499,10 +571,14 @@ func (e *Engine) scanErrGlobals() {
 				if st, ok := in.(*ssa.Store); ok {
 					if g, ok := st.Addr.(*ssa.Global); ok {
 						delete(cand, g)
+						delete(fcand, g)
 					}
 				}
 			}
 		}
+	}
+	for g := range fcand {
+		e.funcGlobals["G$"+sanitize(g.Pkg.Pkg.Name()+"."+g.Name())] = true
 	}
 	for g := range cand {
 		k := "G$" + sanitize(g.Pkg.Pkg.Name()+"."+g.Name())
